@@ -203,7 +203,10 @@ def main(pid, tier="quick", seed=0, jobs=None, only=None, write_baseline=False):
     if base_ids and exit_code == 0 and not only:
         stat = [i for i in baseline.get(tier, []) if "/lib-pre/" not in i and "/rnd:" not in i]
         missing = [i for i in stat if i not in obligations]
-        if missing:
+        if missing and engine_errors:
+            # paths abandoned at a limit of the engine / library models never reach their obligations: undecided, not broken
+            lines.append(f"UNDECIDED {len(missing)} baseline obligation(s) not reached because of engine limits, e.g. {missing[0]}")
+        elif missing:
             # an obligation that existed on the baseline tree was not generated at all
             broken.append(f"{len(missing)} baseline obligation(s) not generated, e.g. {missing[0]}")
     if broken and exit_code == 0:
